@@ -13,7 +13,10 @@ def classify(f):
     return None
 
 def check(run):
-    run.trusted = TRUSTED + ['python oracle checks/domlib.py:c14_violations (independent pre-order walk of the dumped tree) and the Q ops (xml_xpath::query on the edited document and on the re-parse)']
+    run.trusted = TRUSTED + ['Model/StoreView.v (xdoc_of_store, the bridge of the second sentence of C14) is tied by the X ops of the dom correspondence: '
+                             'Table::build of harness/src/domains/xpath.rs on the edited document vs the extracted xdoc_of_store on the model store, both views, row by row; '
+                             'its string facts (normalised attribute values, replacement texts of entity references) are read from the implementation items and taken as given',
+                             'python oracle checks/domlib.py:c14_violations (independent pre-order walk of the dumped tree) and the Q ops (xml_xpath::query on the edited document and on the re-parse)']
     proved, _ = lib.proof_step(run, 'C14', ['-'])
     okr, mok, _ = lib.build_binaries(run, model_areas=['dom'])
     if okr and mok.get('dom'):
@@ -29,6 +32,26 @@ def check(run):
         if s['mismatches']:
             m = s['mismatches'][0]
             run.tie_breaks.append('dom correspondence: model and implementation differ (%d histories; see bin/check C12) e.g. after %s' % (len(s['mismatches']), D.describe_failure(m)))
+        # the tie of the bridge Model/StoreView.v (X ops)
+        T = s.get('tables') or {}
+        run.extra['table_tie'] = {k: v for k, v in T.items() if k != 'diffs'}
+        run.extra['table_tie']['differences'] = len(T.get('diffs', []))
+        run.extra['table_tie']['rule'] = ('xdoc_of_store (extracted) on the model store vs Table::build (harness, shared with the xpath domain) on the edited document, after the same ops; '
+                                          'rows compared field by field (kind, id as handle, key as rank, parent, children, attrs, nss, name, data); skipped = known limits of the view, '
+                                          'decided on the implementation table and counted in hist (skip:dtd-default-attribute, skip:failing-string-observation); '
+                                          'documents without a document element ARE compared (equal-no-document-element)')
+        for k, v in (T.get('hist') or {}).items():
+            run.hist['table:' + k] = v
+        if not T or not T.get('compared'):
+            run.tie_breaks.append('table tie of Model/StoreView.v: no table was compared (X ops missing from the campaign)')
+        seen_t = set()
+        for m in T.get('diffs', []):
+            key = (m.get('field'), m.get('table_view'))
+            if key in seen_t or len(seen_t) >= 3: continue
+            seen_t.add(key)
+            g = D.shrink_table_diff(m)
+            p = run.write_replay('tabletie%d' % len(seen_t), dict(g, property='C14', what='xdoc_of_store (Model/StoreView.v) and the table the evaluator sees on the edited document differ: ' + D.describe_table_diff(g)))
+            run.tie_breaks.append('table tie of Model/StoreView.v: %d of %d tables differ; %s (replay %s)' % (T.get('hist', {}).get('diff', len(T['diffs'])), T['compared'], D.describe_table_diff(g)[:600], p))
         seen = set()
         for f in s['c14']:
             if f['clause'] in seen: continue
